@@ -15,6 +15,13 @@ From V Require Import Gen.NodesXml Model.Xml Spec.XmlLex.
 From V Require Import Gen.Cli Model.CliModel Spec.CliDoc.
 From V Require Import Gen.Tagfilter Model.Tagfilter Spec.GfmFilter.
 From V Require Import Spec.Shape.
+From V Require Import Spec.SpSpec.
+From V Require Import Gen.Nodes Gen.TableRows Spec.Valid.
+From V Require Import Gen.CmGen Model.Cm Spec.CmSpec.
+From V Require Import Spec.SourcePos Spec.SourcePosKnown.
+From V Require Import Spec.Doc.
+From V Require Import Gen.Consts Model.Caps.
+From V Require Import Gen.Special Model.Special Spec.Triggers.
 Extraction Language OCaml.
 Set Extraction KeepSingleton.
 
@@ -158,4 +165,59 @@ Extraction "model.ml"
   Shape.s3
   Shape.s6
   Shape.s6w
+  SpSpec.strip_sp_pat
+  SpSpec.sp_deleted
+  SpSpec.html_sp_check
+  SpSpec.strip_xml_sourcepos
+  SpSpec.xml_sp_check
+  SpSpec.xdrop_sp
+  SpSpec.xml_sp_tree_check
+  Ast.all_kinds
+  Nodes.block
+  Nodes.contains_inlines
+  Nodes.accepts_lines
+  Nodes.can_contain
+  Valid.valid
+  Valid.validate
+  Valid.headings_ok
+  Valid.lists_ok
+  Valid.tables_ok
+  Valid.leaves_ok
+  Valid.structurally_valid
+  Valid.try_opening_row_cells
+  Valid.try_opening_header_cells
+  Valid.row_result
+  Cm.format_document
+  Cm.shortest_unused_sequence
+  Cm.longest_char_sequence
+  Cm.scheme_matches
+  CmSpec.cm_shape
+  CmSpec.cm_no_ol_overflow
+  CmSpec.has_run
+  SourcePos.lines_of
+  SourcePos.fails_go
+  SourcePos.slice
+  SourcePos.sp_in_bounds
+  SourcePos.sp_nested
+  SourcePos.sp_slice_ok
+  SourcePosKnown.classify
+  Doc.canonical
+  Doc.write
+  Doc.ref_html
+  Doc.tree_of
+  Doc.norm
+  Doc.std_opts
+  Doc.mkDoc
+  Doc.wf_doc
+  Caps.document_lookups
+  Caps.feed_rows
+  Caps.open_header
+  Caps.row_cells
+  Triggers.c13_feature_names
+  Triggers.c13_triggers
+  Triggers.c13_free_of
+  Triggers.c13_free_of_heads
+  Special.c13_find_special
+  Special.c13_select_arm
+  Special.c13_tables
 .
